@@ -249,6 +249,33 @@ def table():
                     helpers=[{"name": "h", "ops": [{"op": "postpone", "k": 1},
                                                    {"op": "await_scope", "scope": "S"}]}],
                     between=("scope.body-", "scope-")))
+    # blocks that are left by an exception or a signal are left all the same
+    boom = {"op": "spawn", "into": "S", "actor": {"name": "boom", "ops": [{"op": "raise", "type": "E"}]}}
+    rows.append(row("leave Scope (regular end of the body) whose child has just failed",
+                    {"op": "try", "all": True, "body": [
+                        {"op": "scope", "label": "S", "children": [],
+                         "body": [boom, {"op": "postpone", "k": 1}]}]},
+                    between=("scope.body-", "scope!")))
+    for kind in ("capacities", "resources"):
+        for mode in ("borrow", "claim"):
+            held = {"op": "borrow", "on": "R", "id": "b", "mode": mode, "amounts": {"a": 2},
+                    "body": [{"op": "flag_set", "on": "IN", "to": True}, {"op": "eternity"}]}
+            inside = {"op": "wait", "id": "hin", "x": {"k": "flag", "n": "IN"}}
+            supply = {"R": {"kind": kind, "levels": {"a": 4, "b": 2}}, "F": {"kind": "flag"},
+                      "IN": {"kind": "flag"}}
+            rows.append(row("%s %s exit by the interrupt of an enclosing until" % (kind, mode),
+                            {"op": "scope", "label": "U", "children": [],
+                             "until": {"k": "flag", "n": "F"}, "body": [held]}, supply,
+                            helpers=[{"name": "h", "ops": [inside,
+                                                           {"op": "flag_set", "on": "F", "to": True}]}],
+                            between=(mode + ".leave", mode + "!")))
+            rows.append(row("%s %s exit by the cancellation of the task" % (kind, mode), held,
+                            {"R": {"kind": kind, "levels": {"a": 4, "b": 2}},
+                             "IN": {"kind": "flag"}},
+                            helpers=[{"name": "h", "ops": [inside,
+                                                           {"op": "cancel", "task": "x",
+                                                            "token": ["stop"]}]}],
+                            between=(mode + ".leave", mode + "!")))
     rows.append(row("leave Scope with finished child",
                     {"op": "scope", "label": "S", "children": [{"name": "kid", "ops": []}],
                      "body": [{"op": "postpone", "k": 3}]}, between=("scope.body-", "scope-")))
